@@ -14,7 +14,8 @@
    node histories and transmissions() (harness/genx.py).
    Proofs: Proofs/SimpleExecTx.v, SimpleExecChk.v, SimpleExecTop.v. *)
 From EoNV Require Import Prelude Samp Graph ListDict ListDictP Gillespie KldP GillespieInv SampP Simple SimpleP
-  SimpleExecS SimpleExec SimpleExecLog SimpleExecTop SimpleExecChk SimpleExecTx.
+  SimpleExecS SimpleExec SimpleExecLog SimpleExecTop SimpleExecChk SimpleExecTx SimpleExecTxS.
+From EoNV Require Import Investigation.
 From Coq Require Import Sorted.
 
 (* every returning full-data run, every draw script *)
@@ -52,6 +53,23 @@ Theorem C09gen_entry_valid :
   statuses_after st (a ++ [e]) (ge_node e) = ge_new e /\
   (forall x, x <> ge_node e -> statuses_after st (a ++ [e]) x = cur x).
 Proof. exact tx_entry_valid. Qed.
+
+(* the same in the vocabulary of the returned object's own API (no two events at one instant): at
+   the time t of a recorded transmission (t, u, v), node_status(u, t) is the inducing status A,
+   node_status(v, t) is the new status C, v had B just before, v is a successor of u, and
+   (A,B)->(A,C) is an edge of J with positive rate *)
+Theorem C09gen_entry_valid_in_node_status_terms :
+  forall g (Hg : wfg2 g) H J rstat tmax ic tmin a e b st' t' u,
+  glog g H J tmax ic tmin (a ++ e :: b) st' t' -> ge_src e = Some u ->
+  increasing tmin (map ev3 (a ++ e :: b)) = true ->
+  let iv := log_inv (gnodes g) rstat tmin ic (map ev3 (a ++ e :: b)) in
+  let A := statuses_after ic a u in
+  node_status iv u (ge_t e) = Ok A /\
+  node_status iv (ge_node e) (ge_t e) = Ok (ge_new e) /\
+  statuses_after ic a (ge_node e) = ge_old e /\
+  In (ge_node e) (gadj g u) /\
+  exists tr, In tr J /\ 0 < tr_rate tr /\ tr_from tr = [A; ge_old e] /\ snd_status (tr_to tr) = ge_new e.
+Proof. exact tx_entry_node_status. Qed.
 
 Theorem C09gen_spontaneous_event_has_no_entry :
   forall g H J tmax a st t e b st' t', glog g H J tmax st t (a ++ e :: b) st' t' ->
@@ -128,6 +146,7 @@ Print Assumptions C09gen_full_output.
 Print Assumptions C09gen_entries_are_the_induced_events.
 Print Assumptions C09gen_no_sourceless_entry.
 Print Assumptions C09gen_entry_valid.
+Print Assumptions C09gen_entry_valid_in_node_status_terms.
 Print Assumptions C09gen_spontaneous_event_has_no_entry.
 Print Assumptions C09gen_status_is_last_history_entry.
 Print Assumptions C09gen_time_ordered.
